@@ -112,6 +112,7 @@ class LevelAnalysis:
                     v = ("L", ANY_E)
             env[a.arg] = v
         self.q = q
+        self.ret_key = None
         out = self.block(fn.body, env)
 
     def block(self, stmts, env):
@@ -163,12 +164,28 @@ class LevelAnalysis:
         if isinstance(s, ast.Return):
             if s.value is not None:
                 v = self.expr(s.value, env)
-                old = self.returns[self.q]
+                rk = getattr(self, "ret_key", None) or self.q
+                old = self.returns.get(rk)
                 new = join(old, v)
                 if new != old:
-                    self.returns[self.q] = new
+                    self.returns[rk] = new
                     self.changed = True
             return None
+        if isinstance(s, (ast.FunctionDef, ast.AsyncFunctionDef)):
+            # a local helper (closure): its construction sites are obligations of the enclosing function; calls to
+            # it by name get the join of what it returns
+            key = self.q + "/" + s.name
+            self.returns.setdefault(key, None)
+            inner = dict(env)
+            for a in s.args.args:
+                ann = ast.unparse(a.annotation) if a.annotation is not None else ""
+                inner[a.arg] = ("O", frozenset(OP_LEVEL)) if ann == "Operator" else (("L", ANY_E) if "[Expression]" in ann else None)
+            saved = getattr(self, "ret_key", None)
+            self.ret_key = key
+            self.block(s.body, inner)
+            self.ret_key = saved
+            env[s.name] = ("FN", key)
+            return env
         if isinstance(s, ast.Raise):
             return None
         if isinstance(s, ast.If):
@@ -364,6 +381,8 @@ class LevelAnalysis:
                 return ("L", elem(v)) if v is not None else None
             if name in ("enumerate", "zip"):
                 return None
+        if isinstance(f, ast.Name) and env.get(name) is not None and env[name][0] == "FN":
+            return self.returns.get(env[name][1])
         # operator class held in a variable: op()
         if isinstance(f, ast.Name) and env.get(name) is not None and env[name][0] == "OC":
             return ("O", env[name][1])
